@@ -31,6 +31,10 @@ def cases(tier, seed):
         yield {"type": "singles", "prefix": p, "n": n}
     for s in range(SHARDS):
         yield {"type": "pairs", "shard": s, "n": BOUNDS[tier]["pair_max_layers"]}
+    # every smooth + decomposable but NOT structured-decomposable structure with <= 6 layers (and two hand-written 8-layer
+    # ones with a sum root), paired in both orders with the whole pair pool and with each other
+    for k in range(len(nonsd_pool())):
+        yield {"type": "pairs-nonsd", "k": k, "n": BOUNDS[tier]["pair_max_layers"]}
 
 
 def preds(c):
@@ -40,6 +44,8 @@ def preds(c):
 def run_case(case):
     if case["type"] == "singles":
         return run_singles(case)
+    if case["type"] == "pairs-nonsd":
+        return run_pairs_nonsd(case)
     return run_pairs(case)
 
 
@@ -120,6 +126,49 @@ def pool(n):
                     structs.append(s)
         _POOL[n] = [(s, S.build(s), S.scopes_of(s), S.factorizations(s), S.ref_properties(s)) for s in structs]
     return _POOL[n]
+
+
+_NONSD = []
+
+
+def nonsd_pool():
+    if not _NONSD:
+        seen = set()
+        for n in (5, 6):
+            for p in S.prefixes(4):
+                if len(p) < 3:
+                    continue
+                for st in S.completions(p, n):
+                    sm, dec = S.ref_properties(st)
+                    if sm and dec and not S.same_split(S.factorizations(st)) and repr(st) not in seen:
+                        seen.add(repr(st))
+                        _NONSD.append(st)
+        ins = [["in", [0]], ["in", [1]], ["in", [2]]]
+        _NONSD.append(ins + [["prod", [1, 2]], ["prod", [0, 1]], ["prod", [0, 3]], ["prod", [4, 2]], ["sum", [5, 6]]])
+        _NONSD.append(ins + [["prod", [0, 2]], ["prod", [0, 1]], ["prod", [1, 3]], ["prod", [4, 2]], ["sum", [6, 5]]])
+    return _NONSD
+
+
+def run_pairs_nonsd(case):
+    sa = nonsd_pool()[case["k"]]
+    ca, fa = S.build(sa), S.factorizations(sa)
+    viols = {}
+    counters = {"pairs": 0, "compatible": 0, "same_scope_pairs": 0}
+
+    def add(kind, a, b, detail):
+        if kind not in viols:
+            viols[kind] = {"sig": {"kind": kind}, "detail": detail, "case": {"type": "pair", "a": a, "b": b}}
+
+    others = [(sb, cb, fb) for (sb, cb, _, fb, _) in pool(case["n"])] + [(sb, S.build(sb), S.factorizations(sb)) for sb in nonsd_pool()]
+    for sb, cb, fb in others:
+        counters["pairs"] += 2
+        check_pair(sa, ca, fa, None, sb, cb, fb, None, add, counters)
+        check_pair(sb, cb, fb, None, sa, ca, fa, None, add, counters)
+    res = {"status": "violation" if viols else "ok", "nontrivial": True, "nontrivial_n": len(others), "evaluations": counters["pairs"],
+           "counters": counters, "dims": {"type": "pairs-nonsd"}, "summary": f"{counters['pairs']} pairs with a non-structured-decomposable member"}
+    if viols:
+        res["violations"] = list(viols.values())
+    return res
 
 
 def run_pairs(case):
